@@ -275,9 +275,45 @@ pub fn case_strategy() -> impl Strategy<Value = Case> {
     })
 }
 
+/// Blocks longer than the 128-byte read buffer of the player (and of lengths around its multiples),
+/// so that stop / rewind / end-of-tape land between buffer refills; header-flag blocks included.
+fn long_block() -> impl Strategy<Value = BlockSpec> {
+    (
+        prop_oneof![4 => Just(0xFFu8), 2 => 1u8..=255, 1 => Just(0u8)],
+        prop_oneof![2 => 0u16..12, 3 => 124u16..134, 2 => 252u16..262, 3 => 100u16..420],
+        any::<u64>(),
+        any::<bool>(),
+    )
+        .prop_map(|(flag, len, seed, good_checksum)| BlockSpec { flag, len, seed, good_checksum })
+}
+
+fn long_op_strategy() -> impl Strategy<Value = Op> {
+    prop_oneof![
+        4 => Just(Op::Play),
+        3 => Just(Op::Stop),
+        2 => Just(Op::Rewind),
+        2 => (1u32..5000).prop_map(Op::Advance),
+        2 => (5000u32..3_000_000).prop_map(Op::Advance),
+        // a data-flag pilot lasts 6.99 M T: these land inside the data bytes of the first block
+        4 => (7_000_000u32..12_000_000).prop_map(Op::Advance),
+        3 => (3_000_000u32..30_000_000).prop_map(Op::Advance),
+    ]
+}
+
+pub fn long_case_strategy() -> impl Strategy<Value = Case> {
+    (proptest::collection::vec(long_block(), 1..=3), proptest::collection::vec(long_op_strategy(), 1..=16), prop_oneof![Just(16u8), Just(13), Just(7)]).prop_map(|(blocks, mut ops, step)| {
+        if !ops.contains(&Op::Play) {
+            ops.insert(0, Op::Play);
+        }
+        ops.push(Op::Advance(20_000_000));
+        Case { blocks, ops, step }
+    })
+}
+
 pub fn run(run: &mut Run) {
     let t = run.tier;
     run.explore("histories", t.pick(24_000, 600_000), case_strategy, check);
+    run.explore("long-block-histories", t.pick(8_000, 200_000), long_case_strategy, check);
 }
 
 pub fn replay(run: &mut Run, phase: &str, case: &serde_json::Value) -> Result<(), String> {
@@ -285,8 +321,8 @@ pub fn replay(run: &mut Run, phase: &str, case: &serde_json::Value) -> Result<()
 }
 
 pub const LEVEL: &str = "exploration";
-pub const RULE: &str = "case = tape of 1..2 short data blocks x history of 1..25 commands over {play, stop, rewind, advance n T-states} with n from 1 to 12 M so that commands land mid-pilot, mid-sync, mid-byte, in the pause and after the end, incl. stop-stop-play, play-play and rewind while playing/stopped; the pulse generator is driven through the hook re-export in steps of 1..16 T. Oracle: deck model — no EAR edge while stopped; the edge stream over *playing time* is cut at every rewind and after every complete pass, and each piece must be a prefix of the nominal waveform of the whole tape (clean pilot of the right length, sync, every bit pulse within nominal..nominal+32, pauses), so blocks appear once and in order and a stop/play pair neither loses nor repeats a pulse; a new pass after the end needs a play command. non-trivial = history with a stop->play resume, a double stop, a play after end-of-tape or a rewind after playing started, and at least one edge observed; distinct = hash of the case";
+pub const RULE: &str = "histories: case = tape of 1..2 short data blocks x history of 1..25 commands over {play, stop, rewind, advance n T-states} with n from 1 to 12 M so that commands land mid-pilot, mid-sync, mid-byte, in the pause and after the end, incl. stop-stop-play, play-play and rewind while playing/stopped; the pulse generator is driven through the hook re-export in steps of 1..16 T. Oracle: deck model — no EAR edge while stopped; the edge stream over *playing time* is cut at every rewind and after every complete pass, and each piece must be a prefix of the nominal waveform of the whole tape (clean pilot of the right length, sync, every bit pulse within nominal..nominal+32, pauses), so blocks appear once and in order and a stop/play pair neither loses nor repeats a pulse; a new pass after the end needs a play command. long-block-histories: the same oracle over tapes of 1..3 blocks of 0..420 bytes (lengths around the 128-byte multiples of the read buffer of the player, data and header flags), histories of 1..17 commands with advances that land inside the data bytes, steps of 7/13/16 T. non-trivial = history with a stop->play resume, a double stop, a play after end-of-tape or a rewind after playing started, and at least one edge observed; distinct = hash of the case";
 pub const ASSUMPTIONS: &[&str] = &[
     "a change of the idle EAR level caused by rewind itself is not counted as a waveform edge",
-    "tapes are short (pilot lengths dominate cost); only data-flag blocks (3223-pulse pilots) are used in this check",
+    "first phase: tapes are short (pilot lengths dominate cost) with data-flag blocks only; long blocks and header-flag blocks are in the second phase with fewer cases",
 ];
